@@ -3,6 +3,7 @@ package checks
 import (
 	"bufio"
 	"bytes"
+	"context"
 	"encoding/json"
 	"fmt"
 	"hash/fnv"
@@ -18,6 +19,7 @@ import (
 	"regexp"
 	"runtime"
 	"sort"
+	"strconv"
 	"strings"
 	"sync"
 	"time"
@@ -39,12 +41,71 @@ import (
 type lockedBuf struct {
 	mu sync.Mutex
 	b  bytes.Buffer
+	// which Send wrote which stretch of the buffer (mail log only): the id of the Mailer.Send call the
+	// writing goroutine is inside of, one entry per Write
+	sends  map[uint64]int // goroutine → active Send id
+	nsend  int
+	chunks []int
 }
 
 func (l *lockedBuf) Write(p []byte) (int, error) {
 	l.mu.Lock()
 	defer l.mu.Unlock()
+	if l.sends != nil {
+		l.chunks = append(l.chunks, l.sends[goid()])
+	}
 	return l.b.Write(p)
+}
+
+// interleaved reports whether the writes of some Send are not contiguous in the buffer, i.e. two
+// messages are mixed in the mail log.
+func (l *lockedBuf) interleaved() (bool, int) {
+	l.mu.Lock()
+	defer l.mu.Unlock()
+	closed := map[int]bool{}
+	prev := 0
+	for _, id := range l.chunks {
+		if id != prev {
+			if closed[id] {
+				return true, len(l.chunks)
+			}
+			closed[prev] = true
+			prev = id
+		}
+	}
+	return false, len(l.chunks)
+}
+
+// goid is the id of the calling goroutine (monitor bookkeeping only).
+func goid() uint64 {
+	var buf [64]byte
+	n := runtime.Stack(buf[:], false)
+	f := strings.Fields(string(buf[:n]))
+	if len(f) < 2 {
+		return 0
+	}
+	id, _ := strconv.ParseUint(f[1], 10, 64)
+	return id
+}
+
+// trackedMailer delegates to the shipped mailer and tells the mail log which Send is writing.
+type trackedMailer struct {
+	inner authboss.Mailer
+	log   *lockedBuf
+}
+
+func (t trackedMailer) Send(ctx context.Context, e authboss.Email) error {
+	g := goid()
+	t.log.mu.Lock()
+	t.log.nsend++
+	t.log.sends[g] = t.log.nsend
+	t.log.mu.Unlock()
+	defer func() {
+		t.log.mu.Lock()
+		delete(t.log.sends, g)
+		t.log.mu.Unlock()
+	}()
+	return t.inner.Send(ctx, e)
 }
 
 func (l *lockedBuf) String() string {
@@ -208,7 +269,8 @@ func newC20Server(seed int64, useSMTP bool, jitterOn bool, jsonMode bool) (*c20s
 		s.smtp = f
 		ab.Config.Core.Mailer = defaults.NewSMTPMailer(f.ln.Addr().String(), nil)
 	} else {
-		ab.Config.Core.Mailer = defaults.NewLogMailer(s.mails)
+		s.mails.sends = map[uint64]int{}
+		ab.Config.Core.Mailer = trackedMailer{inner: defaults.NewLogMailer(s.mails), log: s.mails}
 	}
 	if err := ab.Init("auth", "confirm", "lock", "logout", "otp", "recover", "register", "remember"); err != nil {
 		return nil, err
@@ -603,6 +665,17 @@ func c20Unit(c *RunCtx, unit int) {
 	c.Stats.Add("storer-ops", nOps)
 	c.Stats.Add("account-switches-in-global-order", switches)
 	c.Stats.Add("client-scripts", n)
+	if !useSMTP {
+		// the mail log of the shipped LogMailer: the bytes of one message are contiguous, whoever else
+		// is sending at the same time
+		mixed, writes := srv.mails.interleaved()
+		c.Stats.Add("mail-log-writes", writes)
+		if mixed {
+			v := vio("C20", "mail-log-messages-interleaved", "with %d concurrent clients the writes of two Mailer.Send calls are interleaved in the LogMailer's output: one user's message (and link) is mixed into another's", n)
+			c.Stats.Violations = append(c.Stats.Violations, sim.VioRec{Violation: *v, Index: unit})
+			return
+		}
+	}
 	for _, cl := range cs {
 		c.Stats.Evaluations += len(cl.tr)
 		if cl.err != "" {
@@ -713,7 +786,7 @@ func C20RaceReports(scratch string) (lib []string, harnessOnly int, total int) {
 func init() {
 	register(&Check{
 		ID: "C20", Level: "exploration",
-		Rule:  "-race build. One initialised instance behind a real net/http server on loopback, shipped defaults everywhere (router, body reader, responder, redirector, error handler, defaults.Logger on a locked writer, defaults.LogMailer on a locked writer in even units and defaults.SMTPMailer talking to an in-process fake SMTP server in odd units), MailNoGoroutine=false so the library's own mail goroutines run. 4/16/48 clients, each with its own account and cookie jar, run the script register → login-unconfirmed → confirm (token read from the mail) → wrong login → login(rm) → protected → TOTP setup + 4x QR image (pixels must encode this session's own secret) → otp add → logout → otp login → otp replay → logout → recover start → recover end (token from the mail) → old password → new password(rm) → remember re-auth → protected → logout → protected, concurrently (form mode in half of the units, JSON/API mode — JSON bodies in, JSON 'redirects' out — in the other half), with seeded yields/µs-sleeps injected at every storer and session-store operation and at SMTP accept. Oracles: (1) zero race-detector reports with a frame in github.com/volatiletech/authboss/v3 (GORACE halt_on_error=0 log_path, blocks counted from the logs, deduplicated by the innermost library frame pair); a report without a library frame makes the run inconclusive; (2) every client's transcript (status, Location, content type, body, its server-side session, jar keys, its token-row count, its own storage row after every step; identifiers/tokens/hashes/timestamps canonicalised) equals the transcript of the same script run alone against a fresh instance; (3) 8 anonymous clients x 120 requests refused concurrently by ONE redirect-mode access middleware must each be sent to the login page with their own path and query; (4) the C11 handler programs run in 8 goroutines concurrently. distinct_nontrivial = distinct interleaving signatures (hash of the global order of storer operations by account).",
+		Rule:  "-race build. One initialised instance behind a real net/http server on loopback, shipped defaults everywhere (router, body reader, responder, redirector, error handler, defaults.Logger on a locked writer, defaults.LogMailer on a locked writer in even units and defaults.SMTPMailer talking to an in-process fake SMTP server in odd units), MailNoGoroutine=false so the library's own mail goroutines run. 4/16/48 clients, each with its own account and cookie jar, run the script register → login-unconfirmed → confirm (token read from the mail) → wrong login → login(rm) → protected → TOTP setup + 4x QR image (pixels must encode this session's own secret) → otp add → logout → otp login → otp replay → logout → recover start → recover end (token from the mail) → old password → new password(rm) → remember re-auth → protected → logout → protected, concurrently (form mode in half of the units, JSON/API mode — JSON bodies in, JSON 'redirects' out — in the other half), with seeded yields/µs-sleeps injected at every storer and session-store operation and at SMTP accept. Oracles: (1) zero race-detector reports with a frame in github.com/volatiletech/authboss/v3 (GORACE halt_on_error=0 log_path, blocks counted from the logs, deduplicated by the innermost library frame pair); a report without a library frame makes the run inconclusive; (2) every client's transcript (status, Location, content type, body, its server-side session, jar keys, its token-row count, its own storage row after every step; identifiers/tokens/hashes/timestamps canonicalised) equals the transcript of the same script run alone against a fresh instance; (3) 8 anonymous clients x 120 requests refused concurrently by ONE redirect-mode access middleware must each be sent to the login page with their own path and query; (4) the C11 handler programs run in 8 goroutines concurrently; (5) in the LogMailer's output the writes of each Mailer.Send call are contiguous (two users' messages never mix). distinct_nontrivial = distinct interleaving signatures (hash of the global order of storer operations by account).",
 		Units: func(t string) int { return tierN(t, 12, 120) },
 		Run:   c20Unit,
 		Floors: func(t string) map[string]int {
